@@ -21,7 +21,12 @@ macro_rules! rows3 {
     ($t:expr) => { sorted($t.recursive_iter().map(|var_args!(a, b, c)| vec![*a, *b, *c]).collect()) };
 }
 
+macro_rules! rows4 {
+    ($t:expr) => { sorted($t.recursive_iter().map(|var_args!(a, b, c, d)| vec![*a, *b, *c, *d]).collect()) };
+}
+
 type F2 = ColtType!(u32, u32);
+type F4 = ColtType!(u32, u32, u32, u32);
 type F3 = ColtType!(u32, u32, u32);
 
 fn run2(ops: &[Value]) -> Value {
@@ -96,11 +101,58 @@ fn run3(ops: &[Value]) -> Value {
     json!({ "ans": out })
 }
 
+fn run4(ops: &[Value]) -> Value {
+    let mut f = F4::default();
+    let mut out = Vec::new();
+    for op in ops {
+        let a = match op[0].as_str().unwrap() {
+            "ins" => {
+                let r: Vec<u32> = op[1].as_array().unwrap().iter().map(|x| x.as_u64().unwrap() as u32).collect();
+                f.0.insert(var_expr!(r[0], r[1], r[2], r[3]));
+                json!("unit")
+            }
+            "get" => {
+                let p: Vec<u32> = op[1].as_array().unwrap().iter().map(|x| x.as_u64().unwrap() as u32).collect();
+                match p.len() {
+                    0 => json!({"forest": [rows4!(f.0), rows4!(f.1.0), rows4!(f.1.1.0), rows4!(f.1.1.1.0), rows4!(f.1.1.1.1.0)]}),
+                    1 => {
+                        let var_args!(r0, r1, r2, r3) = ColtGet::get(f.as_mut_var(), &p[0]);
+                        json!({"forest": [rows4!(r0), rows4!(r1), rows4!(r2), rows4!(r3)]})
+                    }
+                    2 => {
+                        let g1 = ColtGet::get(f.as_mut_var(), &p[0]);
+                        let var_args!(r0, r1, r2) = ColtGet::get(g1, &p[1]);
+                        json!({"forest": [rows4!(r0), rows4!(r1), rows4!(r2)]})
+                    }
+                    3 => {
+                        let g1 = ColtGet::get(f.as_mut_var(), &p[0]);
+                        let g2 = ColtGet::get(g1, &p[1]);
+                        let var_args!(r0, r1) = ColtGet::get(g2, &p[2]);
+                        json!({"forest": [rows4!(r0), rows4!(r1)]})
+                    }
+                    _ => {
+                        let g1 = ColtGet::get(f.as_mut_var(), &p[0]);
+                        let g2 = ColtGet::get(g1, &p[1]);
+                        let g3 = ColtGet::get(g2, &p[2]);
+                        let var_args!(r0) = ColtGet::get(g3, &p[3]);
+                        json!({"forest": [rows4!(r0)]})
+                    }
+                }
+            }
+            "all" => json!({"forest": [rows4!(f.0), rows4!(f.1.0), rows4!(f.1.1.0), rows4!(f.1.1.1.0), rows4!(f.1.1.1.1.0)]}),
+            _ => json!({"bad_op": true}),
+        };
+        out.push(a);
+    }
+    json!({ "ans": out })
+}
+
 pub fn run(case: &Value) -> Value {
     let ops = case["ops"].as_array().unwrap();
     match case["arity"].as_u64().unwrap_or(0) {
         2 => run2(ops),
         3 => run3(ops),
+        4 => run4(ops),
         _ => json!({"bad_case": "arity"}),
     }
 }
